@@ -715,6 +715,10 @@ def run(ctx):
     run_items(ctx, res, items)
     res['scopes']['corpus'] = len(items)
     thorough = ctx.tier == 'thorough'
+    # lib/vcheck.py re-runs a drifted quick tier at depth only when the first pass found nothing,
+    # and the recorded known finding always makes this harness "find something": look deeper in
+    # the first pass already when the source drifted or an obligation broke
+    deep = ctx.deep or bool(ctx.deep_reasons)
     # no handler at all (list, tuple, dict)
     run_items(ctx, res, [('none', [], [('P', 0), ('T', 2), ('K', ()), ('K', ('a',))])])
     # (b) exhaustive small scopes, smallest first; stop growing once something failed that is
@@ -731,7 +735,7 @@ def run(ctx):
         run_items(ctx, res, items, parallel=True)
         done = n
     extra = {}
-    if ctx.deep and not unlisted_failure(ctx, res):
+    if deep and not unlisted_failure(ctx, res):
         sigs = list(F.all_signatures(maxn + 1, NAMES))
         extra = {'parameters': maxn + 1, 'signatures': len(sigs), 'wrappers': ['plain', 'method']}
         run_items(ctx, res, [(w, s, None) for s in sigs for w in ('plain', 'method')],
@@ -742,7 +746,7 @@ def run(ctx):
                                                 'pnestmix:last', 'pnestkw:last'],
                                    'one_size_more_plain_and_method_only': extra}
     # (b') histories: the same function object in several binding forms, one after the other
-    hmax = 2 if unlisted_failure(ctx, res) else (4 if ctx.deep else 3)
+    hmax = 2 if unlisted_failure(ctx, res) else (4 if deep else 3)
     hist = history_items(hmax)
     run_items(ctx, res, hist, parallel=True)
     res['scopes']['histories'] = {'max_parameters': hmax, 'histories': len(hist),
@@ -757,17 +761,17 @@ def run(ctx):
     out_of_scope_probes(ctx, res)
     failed = unlisted_failure(ctx, res)
     # (c) ill-formed parameter lists: the model's TypeError / AttributeError paths
-    bad = ill_formed_items(2 if failed else 4 if ctx.deep else 3)
-    run_items(ctx, res, bad, parallel=ctx.deep)
+    bad = ill_formed_items(2 if failed else 4 if deep else 3)
+    run_items(ctx, res, bad, parallel=deep)
     res['scopes']['ill_formed_signatures'] = len(bad)
     # (d) seeded random larger signatures, mostly-valid calls + odd names
-    ngen = 300 if failed else 6000 if ctx.deep else 1200
+    ngen = 300 if failed else 6000 if deep else 1200
     gen = []
     while len(gen) < ngen:
         it = random_item(rng)
         if it is not None:
             gen.append(it)
-    run_items(ctx, res, gen, parallel=ctx.deep and not failed)
+    run_items(ctx, res, gen, parallel=deep and not failed)
     res['scopes']['generated_handlers'] = ngen
     res._nontrivial = set(range(res.pop('_nontrivial', 0)))
     return res.finish(RULE, exhaustive=(done == maxn))
